@@ -118,22 +118,43 @@ struct SGhost {
 }
 static mut SG: SGhost = SGhost { magic: 0xD1FA_57A7_1C00_1801, len: 0, bytes: [0; 8] };
 
-fn to_string_model<T: std::fmt::Display + ?Sized>(_v: &T) -> String {
+/// The modelled `f64::to_string`: the harness has put `L` ASCII bytes into the ghost; the String is built from an
+/// array of exactly `L` bytes, so its length is a constant for CBMC (a string grown by `push(char)` has a symbolic
+/// length - `len_utf8` of a symbolic char - and everything after it explodes).
+fn to_string_fixed<const L: usize, T: std::fmt::Display + ?Sized>(_v: &T) -> String {
     unsafe {
-        let mut s = String::with_capacity(8);
+        let mut a = [0u8; L];
         let mut i = 0;
-        while i < SG.len {
-            s.push(SG.bytes[i] as char);
+        while i < L {
+            a[i] = SG.bytes[i];
             i += 1;
         }
-        s
+        String::from_utf8_unchecked(Vec::from(a))
     }
 }
+fn to_string_l1<T: std::fmt::Display + ?Sized>(v: &T) -> String { to_string_fixed::<1, T>(v) }
+fn to_string_l2<T: std::fmt::Display + ?Sized>(v: &T) -> String { to_string_fixed::<2, T>(v) }
+fn to_string_l3<T: std::fmt::Display + ?Sized>(v: &T) -> String { to_string_fixed::<3, T>(v) }
+fn to_string_l4<T: std::fmt::Display + ?Sized>(v: &T) -> String { to_string_fixed::<4, T>(v) }
+fn to_string_l5<T: std::fmt::Display + ?Sized>(v: &T) -> String { to_string_fixed::<5, T>(v) }
+fn to_string_l6<T: std::fmt::Display + ?Sized>(v: &T) -> String { to_string_fixed::<6, T>(v) }
+fn to_string_l7<T: std::fmt::Display + ?Sized>(v: &T) -> String { to_string_fixed::<7, T>(v) }
+fn to_string_l8<T: std::fmt::Display + ?Sized>(v: &T) -> String { to_string_fixed::<8, T>(v) }
 
-/// "I.FFFF" with one integer digit (a lone 0 included) and `F` fraction digits, all digits symbolic.
-fn truncation<const F: usize>(sig: usize) {
-    let int_d: u8 = kani::any();
-    kani::assume(int_d < 10);
+/// Modelled decimal "I..I.F..F" with `I` integer digits (no leading zero unless I == 1) and `F` fraction digits
+/// (no trailing zero: shortest round-trip printing never prints one), all digits symbolic; `sig` significant figures.
+/// Expected: all integer digits kept; max(0, sig - I) fraction digits kept by truncation; trailing zeros and a
+/// dangling point stripped.
+fn truncation<const I: usize, const F: usize>(sig: usize) {
+    let mut int = [0u8; I];
+    let mut i = 0;
+    while i < I {
+        let d: u8 = kani::any();
+        kani::assume(d < 10);
+        int[i] = d;
+        i += 1;
+    }
+    kani::assume(I == 1 || int[0] != 0);
     let mut frac = [0u8; F];
     let mut i = 0;
     while i < F {
@@ -142,27 +163,34 @@ fn truncation<const F: usize>(sig: usize) {
         frac[i] = d;
         i += 1;
     }
-    // shortest round-trip never prints a trailing zero in the fraction
     kani::assume(F == 0 || frac[F - 1] != 0);
     unsafe {
-        SG.bytes[0] = b'0' + int_d;
+        let mut i = 0;
+        while i < I {
+            SG.bytes[i] = b'0' + int[i];
+            i += 1;
+        }
         if F > 0 {
-            SG.bytes[1] = b'.';
+            SG.bytes[I] = b'.';
         }
         let mut i = 0;
         while i < F {
-            SG.bytes[2 + i] = b'0' + frac[i];
+            SG.bytes[I + 1 + i] = b'0' + frac[i];
             i += 1;
         }
-        SG.len = if F > 0 { 2 + F } else { 1 };
+        SG.len = if F > 0 { I + 1 + F } else { I };
     }
-    let out = format_f64(0.0, sig);
+    // the numeric value handed to format_f64 is consistent with the modelled text as far as the code may look at
+    // it (sign, < 1): an arbitrary non-negative finite f64 that is < 1 iff the integer part is a lone 0
+    let val: f64 = kani::any();
+    kani::assume(val.is_finite() && val >= 0.0);
+    let lone_zero = I == 1 && int[0] == 0;
+    kani::assume((val < 1.0) == lone_zero);
+    let out = format_f64(val, sig);
     let o = out.as_bytes();
-    // expected: integer digit kept; max(0, sig - 1) fraction digits kept by truncation; trailing zeros and a
-    // dangling point stripped
-    let keep = if sig > 1 { sig - 1 } else { 0 };
+    let keep = if sig > I { sig - I } else { 0 };
     let keep = if keep < F { keep } else { F };
-    let mut last = 0; // number of fraction digits remaining after stripping zeros
+    let mut last = 0; // fraction digits remaining after stripping zeros
     let mut i = 0;
     while i < keep {
         if frac[i] != 0 {
@@ -170,34 +198,135 @@ fn truncation<const F: usize>(sig: usize) {
         }
         i += 1;
     }
-    assert!(o[0] == b'0' + int_d);
+    let mut i = 0;
+    while i < I {
+        assert!(o[i] == b'0' + int[i]);
+        i += 1;
+    }
     if last == 0 {
-        assert!(o.len() == 1);
+        assert!(o.len() == I);
     } else {
-        assert!(o.len() == 2 + last);
-        assert!(o[1] == b'.');
+        assert!(o.len() == I + 1 + last);
+        assert!(o[I] == b'.');
         let mut i = 0;
         while i < last {
-            assert!(o[2 + i] == b'0' + frac[i]);
+            assert!(o[I + 1 + i] == b'0' + frac[i]);
             i += 1;
         }
     }
     unsafe { assert!(SG.magic == 0xD1FA_57A7_1C00_1801); }
-    kani::cover!(last == 0 && F > 0);
-    kani::cover!(last == keep && keep > 0);
-    kani::cover!(int_d == 0 && last > 0);
+    // witnesses, guarded by what the shape (I, F, sig) can produce at all
+    kani::cover!((F == 0 || keep >= F) || last == 0);
+    kani::cover!(keep == 0 || last == keep);
+    kani::cover!((I != 1 || keep == 0) || (lone_zero && last > 0));
+    kani::cover!((keep == 0 || keep >= F) || last < keep);
+    std::mem::forget(out);
 }
 
-// @cell props=C18 tier=thorough kind=attempt timeout=600 mem=28 cls=K
-// @desc format_f64 at 4 significant figures on the modelled string "d.dddd" (one integer digit - a lone 0 counts -
-// @desc and four symbolic fraction digits): exactly 3 decimals are kept, by truncation, trailing zeros stripped
+// @cell props=C18 tier=quick kind=core timeout=900 mem=16 cls=K
+// @desc format_f64 at 4 significant figures on the modelled text "d.dddd" (one integer digit - a lone 0 counts - and
+// @desc four symbolic fraction digits): exactly 3 decimals are kept, by truncation, trailing zeros and a dangling
+// @desc point stripped
 #[kani::proof]
-#[kani::unwind(12)]
-#[kani::stub(<f64 as std::string::ToString>::to_string, to_string_model)]
+#[kani::unwind(9)]
+#[kani::stub(<f64 as std::string::ToString>::to_string, to_string_l6)]
 fn c18_truncation_1_4() {
-    truncation::<4>(4)
+    truncation::<1, 4>(4)
 }
 
+// @cell props=C18 tier=quick kind=core timeout=900 mem=16 cls=K
+// @desc the same on "dd.ddd" (two integer digits): 2 decimals kept
+#[kani::proof]
+#[kani::unwind(9)]
+#[kani::stub(<f64 as std::string::ToString>::to_string, to_string_l6)]
+fn c18_truncation_2_3() {
+    truncation::<2, 3>(4)
+}
+
+// @cell props=C18 tier=quick kind=core timeout=900 mem=16 cls=K
+// @desc "dddd.dd" (four integer digits = all significant figures): no decimals kept, point dropped
+#[kani::proof]
+#[kani::unwind(9)]
+#[kani::stub(<f64 as std::string::ToString>::to_string, to_string_l7)]
+fn c18_truncation_4_2() {
+    truncation::<4, 2>(4)
+}
+
+// @cell props=C18 tier=quick kind=core timeout=900 mem=16 cls=K
+// @desc "ddd.dd" (three integer digits): exactly 1 decimal kept
+#[kani::proof]
+#[kani::unwind(9)]
+#[kani::stub(<f64 as std::string::ToString>::to_string, to_string_l6)]
+fn c18_truncation_3_2() {
+    truncation::<3, 2>(4)
+}
+
+// @cell props=C18 tier=quick kind=core timeout=900 mem=16 cls=K
+// @desc "d.d" at a symbolic number of significant figures 0..=6
+#[kani::proof]
+#[kani::unwind(9)]
+#[kani::stub(<f64 as std::string::ToString>::to_string, to_string_l3)]
+fn c18_truncation_1_1_any_sig() {
+    let sig: usize = kani::any();
+    kani::assume(sig <= 6);
+    truncation::<1, 1>(sig)
+}
+
+// @cell props=C18 tier=quick kind=core timeout=900 mem=16 cls=K
+// @desc a text of three arbitrary ASCII bytes without a point ("inf", "NaN", "123") is returned unchanged at any
+// @desc precision
+#[kani::proof]
+#[kani::unwind(9)]
+#[kani::stub(<f64 as std::string::ToString>::to_string, to_string_l3)]
+fn c18_no_point_unchanged() {
+    let b: [u8; 3] = [kani::any(), kani::any(), kani::any()];
+    kani::assume(b[0] < 128 && b[1] < 128 && b[2] < 128);
+    kani::assume(b[0] != b'.' && b[1] != b'.' && b[2] != b'.');
+    unsafe {
+        SG.bytes[0] = b[0];
+        SG.bytes[1] = b[1];
+        SG.bytes[2] = b[2];
+    }
+    let sig: usize = kani::any();
+    let val: f64 = kani::any();
+    let out = format_f64(val, sig);
+    let o = out.as_bytes();
+    assert!(o.len() == 3);
+    assert!(o[0] == b[0] && o[1] == b[1] && o[2] == b[2]);
+    kani::cover!(b[0] == b'i' && b[1] == b'n' && b[2] == b'f');
+    std::mem::forget(out);
+}
+
+// @cell props=C18 tier=thorough kind=core timeout=1800 mem=20 cls=K
+// @desc "d.dddddd" (six fraction digits) at a symbolic number of significant figures 0..=8
+#[kani::proof]
+#[kani::unwind(10)]
+#[kani::stub(<f64 as std::string::ToString>::to_string, to_string_l8)]
+fn c18_truncation_1_6_any_sig() {
+    let sig: usize = kani::any();
+    kani::assume(sig <= 8);
+    truncation::<1, 6>(sig)
+}
+
+// @cell props=C18 tier=thorough kind=core timeout=1800 mem=20 cls=K
+// @desc "ddddd.dd" (five integer digits, more than the 4 significant figures): integer digits kept in full
+#[kani::proof]
+#[kani::unwind(10)]
+#[kani::stub(<f64 as std::string::ToString>::to_string, to_string_l8)]
+fn c18_truncation_5_2() {
+    truncation::<5, 2>(4)
+}
+
+// @cell props=C18 tier=thorough kind=core timeout=1800 mem=20 cls=K
+// @desc "dd.ddddd" at a symbolic number of significant figures 0..=8
+#[kani::proof]
+#[kani::unwind(10)]
+#[kani::stub(<f64 as std::string::ToString>::to_string, to_string_l8)]
+fn c18_truncation_2_5_any_sig() {
+    let sig: usize = kani::any();
+    kani::assume(sig <= 8);
+    truncation::<2, 5>(sig)
+}
 
 // ---- throughput: the prefix of non-byte counters is always decimal, bytes follow the configured format
 
@@ -208,30 +337,31 @@ fn to_string_one<T: std::fmt::Display + ?Sized>(_v: &T) -> String {
     s
 }
 
-// @cell props=C18 tier=quick kind=attempt timeout=1200 mem=20 cls=K
-// @desc DisplayThroughput through the real Display impl (write! into a String; the number printer stubbed to "1"):
-// @desc for a symbolic counter kind, count (u32), duration (u32 ps, non-zero) and byte format, the unit printed is the
-// @desc one of the largest 1000^k (items, chars, cycles - whatever byte format is configured) resp. 1000^k or 1024^k
-// @desc (bytes, as configured) not exceeding the rate
-#[kani::proof]
-#[kani::unwind(12)]
-#[kani::stub(<f64 as std::string::ToString>::to_string, to_string_one)]
-fn c18_throughput_unit() {
-    use std::fmt::Write;
-    let k: u8 = kani::any();
-    kani::assume(k < 4);
-    let kind = KnownCounterKind::ALL[k as usize];
-    let count: u32 = kani::any();
-    let picos: u32 = kani::any();
-    kani::assume(picos != 0 && count != 0);
+/// Calls the real `<DisplayThroughput as Display>::fmt` with a default `Formatter` writing into a String.
+/// (`write!`/`format!` would go through `core::fmt::write`, whose type-erased argument fn pointers CBMC cannot
+/// resolve cheaply; `Formatter::new` is the unstable constructor, enabled for the scratch crate under cfg(kani).)
+fn show_throughput(dt: &DisplayThroughput) -> String {
+    let mut out = String::new();
+    let mut f = core::fmt::Formatter::new(&mut out, core::fmt::FormattingOptions::new());
+    let r = fmt::Display::fmt(dt, &mut f);
+    assert!(r.is_ok());
+    out
+}
+
+fn throughput_unit<const K: usize>() {
+    // the counter kind is concrete per instance: with a suffix pointer ranging over *different* suffix tables CBMC's
+    // byte-copy model of `push_str` returns unconstrained bytes (engine imprecision, met as a false alarm while
+    // building this cell); count and byte format are symbolic
+    let kind = KnownCounterKind::ALL[K];
+    let count: u64 = kani::any();
+    kani::assume(count != 0 && count < (1 << 53));
     let binary: bool = kani::any();
     let bf = if binary { BytesFormat::Binary } else { BytesFormat::Decimal };
-    let counter = AnyCounter::known(kind, count as u64);
-    let dt = DisplayThroughput { counter: &counter, picos: picos as f64, bytes_format: bf };
-    let mut out = String::new();
-    write!(&mut out, "{}", dt).unwrap();
+    let counter = AnyCounter::known(kind, count as _);
+    let dt = DisplayThroughput { counter: &counter, picos: 1e12, bytes_format: bf };
+    let out = show_throughput(&dt);
     // expected unit
-    let rate = count as f64 * (1e12 / picos as f64);
+    let rate = count as f64;
     let is_bytes = matches!(kind, KnownCounterKind::Bytes);
     let eff = if is_bytes { bf } else { BytesFormat::Decimal };
     let (_, scale) = scale_value(rate, eff);
@@ -245,56 +375,29 @@ fn c18_throughput_unit() {
     let o = out.as_bytes();
     assert!(o.len() == 2 + suffix.len());
     assert!(o[0] == b'1' && o[1] == b' ');
-    let mism = o[2] != suffix.as_bytes()[0];
-    kani::cover!(mism && count < 1000 && picos < 1000);
-    kani::cover!(mism && count < 100000 && picos < 100000);
-    kani::cover!(mism && scale as usize == 0);
-    kani::cover!(mism && scale as usize == 1);
-    kani::cover!(mism && scale as usize == 2);
-    kani::cover!(mism && scale as usize == 3);
-    kani::cover!(mism && scale as usize == 4);
-    kani::cover!(mism && scale as usize == 5);
-    kani::cover!(mism && o[2] == b'K');
-    kani::cover!(mism && o[2] == b'M');
-    kani::cover!(mism && o[2] == b'i');
-    kani::cover!(mism && o[2] == b'B');
-    kani::cover!(mism && !is_bytes && !binary && count == 1);
     let mut i = 0;
     while i < suffix.len() {
         let same = o[2 + i] == suffix.as_bytes()[i];
         assert!(same);
         i += 1;
     }
-    kani::cover!(!is_bytes && binary && scale as usize == 1);
-    kani::cover!(is_bytes && binary && scale as usize == 2);
+    kani::cover!(is_bytes || (binary && scale as usize == 1 && count < 1024));
+    kani::cover!(!is_bytes || (binary && scale as usize == 0 && count >= 1000));
+    kani::cover!(scale as usize == 5);
+    std::mem::forget(out);
 }
 
-// @cell props=DBG tier=thorough kind=attempt timeout=600 mem=20 cls=K
-// @desc debug
+// @cell props=C18 tier=quick kind=core timeout=1200 mem=20 cls=K
+// @desc DisplayThroughput through the real Display impl (default Formatter into a String; the number printer stubbed
+// @desc to "1"): for each counter kind, any count below 2^53 (over exactly one second) and either configured byte
+// @desc format, the unit printed is the one of the largest 1000^k (items, chars, cycles - whatever byte format is
+// @desc configured) resp. 1000^k or 1024^k (bytes, as configured) not exceeding the rate
 #[kani::proof]
 #[kani::unwind(12)]
 #[kani::stub(<f64 as std::string::ToString>::to_string, to_string_one)]
-fn dbg_throughput() {
-    use std::fmt::Write;
-    let count: u32 = kani::any();
-    let picos: u32 = kani::any();
-    kani::assume(count >= 1 && count <= 3 && picos >= 1 && picos <= 3);
-    let counter = AnyCounter::known(KnownCounterKind::Items, count as u64);
-    let dt = DisplayThroughput { counter: &counter, picos: picos as f64, bytes_format: BytesFormat::Decimal };
-    let mut out = String::new();
-    write!(&mut out, "{}", dt).unwrap();
-    let o = out.as_bytes();
-    let rate = count as f64 * (1e12 / picos as f64);
-    let (_, scale) = scale_value(rate, BytesFormat::Decimal);
-    let suffix = scale.suffix(ScaleFormat::ItemsThroughput);
-    assert!(o.len() == 2 + suffix.len(), "len");
-    if count == 1 && picos == 1 { assert!(o[2] == suffix.as_bytes()[0], "1/1"); }
-    if count == 1 && picos == 2 { assert!(o[2] == suffix.as_bytes()[0], "1/2"); }
-    if count == 1 && picos == 3 { assert!(o[2] == suffix.as_bytes()[0], "1/3"); }
-    if count == 2 && picos == 1 { assert!(o[2] == suffix.as_bytes()[0], "2/1"); }
-    if count == 3 && picos == 1 { assert!(o[2] == suffix.as_bytes()[0], "3/1"); }
-    if count == 3 && picos == 2 { assert!(o[2] == suffix.as_bytes()[0], "3/2"); }
-    if count == 1 && picos == 2 { assert!(o[2] == b'G', "1/2 is G"); }
-    if count == 1 && picos == 2 { assert!(o[2] == b'T', "1/2 is T"); }
-    kani::cover!(true);
+fn c18_throughput_unit() {
+    throughput_unit::<0>();
+    throughput_unit::<1>();
+    throughput_unit::<2>();
+    throughput_unit::<3>();
 }
